@@ -95,7 +95,7 @@ func init() {
 
 func init() {
 	register(&PropCheck{
-		ID: "C18", Pkgs: []string{"frame", "segment"}, FnRe: `^VerifC18_`, Level: "other", NativeRace: true,
+		ID: "C18", Pkgs: []string{"frame", "segment", "datacodec"}, FnRe: `^VerifC18_`, Level: "other", NativeRace: true,
 		Explain: "sufficient condition decided by symbolic execution: the codecs are stateless after construction. Every explored path of two codec calls on distinct arguments through one shared codec is checked for writes (stores, map updates, buffer appends) to memory that is shared between the calls, package-level, or pre-existing and not reachable from the call's own arguments. No shared writes => concurrent calls cannot race with each other and return what sequential calls return. Interleavings themselves are not explored (the technique has no scheduler model); third-party compressor internals are stubs.",
 		Rule: "write-footprint (frame condition) of codec calls: every store, map update and buffer append executed by two codec calls on distinct arguments through one shared codec is checked, on every explored path, to target memory allocated by the call or reachable only from its own arguments - never the shared codec, never a package-level variable; natively the same calls run in parallel under the race detector",
 	})
